@@ -380,6 +380,30 @@ func writeEvidence(pf *PropFile, rep *report) {
 			other = append(other, u)
 		}
 	}
+	// callee contracts that no claimed property verifies yet are assumptions, not proofs
+	covered := map[string]bool{}
+	if files, err := filepath.Glob(filepath.Join(verifDir, "props", "C*.json")); err == nil {
+		for _, f := range files {
+			if data, err := os.ReadFile(f); err == nil {
+				var p PropFile
+				if json.Unmarshal(data, &p) == nil {
+					for _, fn := range p.Functions {
+						covered[strings.TrimPrefix(fn, "github.com/vicanso/pike/")] = true
+					}
+				}
+			}
+		}
+	}
+	var unverified []string
+	var verifiedOK []string
+	for _, v := range verified {
+		if covered[shortKey(v)] {
+			verifiedOK = append(verifiedOK, v)
+		} else {
+			unverified = append(unverified, v)
+		}
+	}
+	verified = verifiedOK
 	samples := []interface{}{}
 	for i, c := range rep.Checked {
 		if i >= 12 {
@@ -390,6 +414,9 @@ func writeEvidence(pf *PropFile, rep *report) {
 	assumptions := append([]string{}, pf.Assumptions...)
 	for _, a := range assumed {
 		assumptions = append(assumptions, "assumed contract (not verified): "+a)
+	}
+	for _, a := range unverified {
+		assumptions = append(assumptions, "callee contract used but not verified by any claimed check (assumed): "+a)
 	}
 	for _, a := range pure {
 		assumptions = append(assumptions, "assumed effect-free on pike's heap: "+a)
